@@ -11,7 +11,8 @@ import (
 
 // =================== unfold cases ===================
 // unfold \t <cache> | type | old value | events \t SETUPERR | R ok V <value> D <depths> | R err D <depths> | PANIC | HANG
-//   cache: -1 no key cache, otherwise EnableKeyCache(cache)
+//
+//	cache: -1 no key cache, otherwise EnableKeyCache(cache)
 func depthsTok(u *gotype.Unfolder) string {
 	d := u.VerifDepths()
 	parts := make([]string, len(d))
